@@ -20,7 +20,7 @@ ASSUMPTIONS = ['np.random.uniform is the only entropy source of rsatoolbox.simul
                '[2^-20, 1-2^-20] (the measure-zero endpoints 0 and 1 are not injected)',
                'scipy.stats.norm.ppf and numpy linear algebra are trusted',
                'tolerance 1e-6 relative (the tree\'s own LDL clamp at 1e-15 costs about 6e-8)']
-BUDGET = {'quick': {'runs': 4000, 'cap_s': 30, 'wall_s': 100, 'chunk': 50},
+BUDGET = {'quick': {'runs': 10000, 'cap_s': 30, 'wall_s': 100, 'chunk': 50},
           'thorough': {'runs': 150000, 'cap_s': 60, 'wall_s': 1200, 'chunk': 250}}
 
 
